@@ -20,33 +20,35 @@ logging.disable(logging.CRITICAL)
 from traits.api import Any, DelegatesTo, HasTraits, Instance, Int, List, TraitType, push_exception_handler  # noqa: E402
 
 EXN = ["IndexError", "ValueError", "TraitError", "TypeError", "KeyError", "AttributeError", "RecursionError"]
-NAMES = ["s0", "s1", "l0", "l1"]
+# the list traits are called `items` and `values`: names that end in characters of the suffix "_items" (fifth wave:
+# the items handler must cut the suffix, not strip a character set)
+NAMES = ["s0", "s1", "items", "values"]
 ALL_NAMES = NAMES + ["a0"]
 
 
 class A(HasTraits):
     s0 = Int
     s1 = Int
-    l0 = List(Int)
-    l1 = List(Int)
+    items = List(Int)
+    values = List(Int)
     a0 = Any          # partner-only: takes whatever it is given; neither observed nor operated on
 
 
 # Object variants (case["variant"][oid], default "plain"); the property does not distinguish them:
-#  "deleg":  l0 is a DELEGATED list attribute (DelegatesTo a List(Int) on a private model object): sync_trait has to
+#  "deleg":  items is a DELEGATED list attribute (DelegatesTo a List(Int) on a private model object): sync_trait has to
 #            recognise it as a list trait through base_trait() and hook <name>_items on it like on a plain List;
 #  "valerr": s1 is an integer trait whose validator signals rejection with a ValueError subclass, not TraitError:
 #            as a partner that rejects a value it must be skipped like any other (the handler's `except: pass`).
 class M(HasTraits):
-    l0 = List(Int)
+    items = List(Int)
 
 
 class D(HasTraits):
     s0 = Int
     s1 = Int
     model = Instance(M, ())
-    l0 = DelegatesTo("model")
-    l1 = List(Int)
+    items = DelegatesTo("model")
+    values = List(Int)
     a0 = Any
 
 
@@ -66,8 +68,8 @@ class IntV(TraitType):
 class V(HasTraits):
     s0 = Int
     s1 = IntV()
-    l0 = List(Int)
-    l1 = List(Int)
+    items = List(Int)
+    values = List(Int)
     a0 = Any
 
 
@@ -142,7 +144,7 @@ def run_case(case, emit=None):
     pool = []
     for oid, vals in enumerate(case["init"]):
         o = VARIANTS[(case.get("variant") or ["plain"] * len(case["init"]))[oid]](
-            s0=vals[0], s1=vals[1], l0=list(vals[2]), l1=list(vals[3]))
+            s0=vals[0], s1=vals[1], items=list(vals[2]), values=list(vals[3]))
         rec = make_recorder(oid, counts)
         for n in NAMES:
             o.on_trait_change(rec, n)
@@ -183,7 +185,7 @@ def run_case(case, emit=None):
                 vals.append([])
                 cnt.append([])
             else:
-                vals.append([o.s0, o.s1, list(o.l0), list(o.l1)])
+                vals.append([o.s0, o.s1, list(o.items), list(o.values)])
                 cnt.append([counts.get((oid, n), 0) for n in NAMES])
         out.append(dict(out=res, vals=vals, cnt=cnt, logged=LOGGED[0]))
         if emit is not None:
